@@ -2,8 +2,18 @@
 import time, subprocess, tempfile, os
 
 
-def _solver(timeout_ms, seed):
+def _solver(timeout_ms, seed, strat="auto"):
     import z3
+    if strat == "ematch":       # pure E-matching with a deep instantiation budget; no model-based instantiation
+        z3.set_param("smt.mbqi", False)
+        z3.set_param("smt.auto_config", False)
+        z3.set_param("smt.qi.eager_threshold", 100.0)
+        z3.set_param("smt.qi.lazy_threshold", 200.0)
+    else:
+        z3.set_param("smt.mbqi", True)
+        z3.set_param("smt.auto_config", True)
+        z3.set_param("smt.qi.eager_threshold", 10.0)
+        z3.set_param("smt.qi.lazy_threshold", 20.0)
     ctx = z3.Context()
     s = z3.Solver(ctx=ctx)
     s.set("timeout", int(timeout_ms))
@@ -11,10 +21,10 @@ def _solver(timeout_ms, seed):
     return z3, ctx, s
 
 
-def run_z3(smt, timeout_ms, seed, subset=None):
+def run_z3(smt, timeout_ms, seed, subset=None, strat="auto"):
     t0 = time.time()
     try:
-        z3, ctx, s = _solver(timeout_ms, seed)
+        z3, ctx, s = _solver(timeout_ms, seed, strat)
         if subset is None:
             s.from_string(smt)
         else:
@@ -46,9 +56,34 @@ def run_core(smt, timeout_ms, seed):
             s.assert_and_track(A[i], p)
         s.add(A[n - 1])
         r = s.check()
-        if r != z3.unsat:
-            return (str(r), time.time() - t0, [])
-        core = sorted(names[str(c)] for c in s.unsat_core())
+        if r == z3.unsat:
+            core = sorted(names[str(c)] for c in s.unsat_core())
+        else:
+            # tracked query did not finish: chunked delta-debugging from the full hypothesis set
+            core = list(range(n - 1))
+            chunk = max(1, len(core) // 4)
+            deadline = time.time() + 4 * timeout_ms / 1000.0
+            while chunk >= 1 and time.time() < deadline:
+                i = 0
+                progress = False
+                while i < len(core) and time.time() < deadline:
+                    cand = core[:i] + core[i + chunk:]
+                    s2 = z3.Solver(ctx=ctx)
+                    s2.set("timeout", int(timeout_ms))
+                    for j in cand:
+                        s2.add(A[j])
+                    s2.add(A[n - 1])
+                    if s2.check() == z3.unsat:
+                        core = cand
+                        progress = True
+                    else:
+                        i += chunk
+                if chunk == 1:
+                    break
+                chunk = max(1, chunk // 2)
+            if len(core) == n - 1:
+                return ("unknown", time.time() - t0, [])
+            return ("unsat", time.time() - t0, core)
         # greedy minimisation with a short budget per attempt
         cur = list(core)
         budget = time.time() + timeout_ms / 1000.0
@@ -91,6 +126,7 @@ def run(job):
         return run_cvc5(smt, timeout_ms)
     if backend == "core":
         return run_core(smt, timeout_ms, seed)
+    strat = job[5] if len(job) > 5 else "auto"
     if backend == "hint":
-        return run_z3(smt, timeout_ms, seed, subset=job[4])
-    return run_z3(smt, timeout_ms, seed)
+        return run_z3(smt, timeout_ms, seed, subset=job[4], strat=strat)
+    return run_z3(smt, timeout_ms, seed, strat=strat)
